@@ -189,6 +189,11 @@ VALUES = {
 EXCS = {
     've0': lambda: ValueError(), 've2': lambda: ValueError('m', 2), 'ke': lambda: KeyError('k'), 'custom': lambda: CustomErr('x', 3),
     'oserr': lambda: OSError(2, 'nope'),
+    # exception classes the library itself handles somewhere on its own paths: raised by the target they are just its error
+    'bpe': lambda: BrokenPipeError(32, 'Broken pipe'), 'eof': lambda: EOFError('e'), 'crst': lambda: ConnectionResetError(104, 'reset'),
+    'empty': lambda: __import__('queue').Empty(), 'cce': lambda: __import__('pyworkers.remote', fromlist=['x']).ConnectionClosedError(),
+    'wce': lambda: __import__('pyworkers.persistent', fromlist=['x']).WorkerClosedError('w'), 'timeout': lambda: TimeoutError('t'),
+    'assert': lambda: AssertionError('a'), 'stop': lambda: StopIteration(3),
 }
 
 
